@@ -235,6 +235,12 @@ theorem mutRun_spec (k : MutK) (o : Obj) (e : EP) (m : ResM (Char × Option Obj 
     split at hm <;> simp only [Option.some.injEq, reduceCtorEq] at hm
     subst hm
     exact mut_err SockO.foot .sock (fun _ => rfl) (fun _ => rfl) x e _ (sockConnectRefused_spec x e)
+  | sockIoClosed =>
+    cases o <;> simp only [mutRun, reduceCtorEq] at hm
+    rename_i x
+    split at hm <;> simp only [Option.some.injEq, reduceCtorEq] at hm
+    subst hm
+    exact mut_err SockO.foot .sock (fun _ => rfl) (fun _ => rfl) x e _ (sockIoClosed_spec x e)
   | sockClose =>
     cases o <;> simp only [mutRun, Option.some.injEq, reduceCtorEq] at hm
     subst hm; rename_i x
